@@ -42,7 +42,8 @@ fi
 python3 - "$out" "$id" "$suite" "$demo_with" "$demo_without" "[${results%,}]" "$props" <<'PY'
 import json,sys
 out,id,suite,dw,dwo,res,props=sys.argv[1:8]
-meta={"seed":id,"breaks_property":id.split('-')[0],"suite_with_change":suite,"demo_with_change":dw,"demo_without_change":dwo,
+prop=[p for p in id.split('-') if p.startswith('C') and p[1:].isdigit()][0]
+meta={"seed":id,"breaks_property":prop,"suite_with_change":suite,"demo_with_change":dw,"demo_without_change":dwo,
 "checks_run":json.loads(res),"what_i_ran":"tools/seedeval.sh: scratch worktree of /repo HEAD: git apply patch.diff; go test -vet=off -count=1 ./... ; demo copied in as zz_seed_demo_test.go and run with -run TestSeed with and without the change; then git -C /repo apply, ./check <property> --tier quick for: "+props+", git -C /repo checkout -- ."}
 try:
     meta["needs_to_manifest"]=open(out+"/notes.md").read()
